@@ -18,6 +18,11 @@ TAGS = ['', 'a', 'b', 'heralded', 'final', 'parity']      # 'parity' is used by 
 RT = {'F': RelationType.FOLLOWED_BY, 'S': RelationType.JOINED_START, 'E': RelationType.JOINED_END}
 
 
+def fresh(s):
+    """an equal but DISTINCT string object (tags built at run time -- f-strings, YAML -- are never the same object as the query's)"""
+    return (s + ' ')[:-1] if len(s) > 1 else s
+
+
 def ticks(x):
     t = int(round(float(x) * 8))
     assert t / 8 == float(x), f"time {x} is not a multiple of 1/8"
@@ -138,7 +143,7 @@ def observe(circuit, with_stim):
     by_tag = []
     for q in qubits:
         for t, name in enumerate(TAGS):
-            r = circuit.get_acquisition_indices(AcquisitionTag(qubit_index=q, tag=name))   # positional: multipledispatch ignores keywords
+            r = circuit.get_acquisition_indices(AcquisitionTag(qubit_index=q, tag=fresh(name)))   # positional: multipledispatch ignores keywords
             by_tag.append([q, t, [int(x) for x in np.asarray(r).tolist()]])
     out = {'listing': listing, 'sched': sched, 'up': up, 'subcircuits': subcircuits, 'regs': regs[1:], 'meas': meas, 'by_qubit': by_qubit, 'by_tag': by_tag,
            'uids_consistent': uids.consistent}
@@ -177,7 +182,7 @@ def build(spec, top, unrelated):
             reg = cmd.get('reg', 'own')
             src = {'own': circuit, 'top': top, 'unrelated': unrelated}[reg]
             o = DispersiveMeasure(qubit_index=cmd['q'], acquisition_strategy=src.get_acquisition_strategy(),
-                                  acquisition_tag=TAGS[cmd['tag']], **kw)
+                                  acquisition_tag=fresh(TAGS[cmd['tag']]), **kw)
         elif op == 'Wait':
             o = Wait(qubit_index=cmd['q'], duration_strategy=FixedDurationStrategy(duration=cmd['d'] / 4), **kw)
         elif op == 'Rx180':
